@@ -446,7 +446,9 @@ PROPS = {
                                         "--compact-bias", "1"], quick=24, thorough=600),
               # spec -> impl: one behaviour per distinct state of the small core model (TLC,
               # exhaustive), sampled; every call followed by a full observation
-              dict(driver="hist", gen="core", args=[], quick=400, thorough=20000)]),
+              dict(driver="hist", gen="core", args=[], quick=400, thorough=20000),
+              dict(driver="hist", args=["--nops", "45", "--per-file", "6", "--profile", "trivial",
+                                        "--compact-bias", "1"], quick=12, thorough=300)]),
     "C03": dict(
         design=[(CORE, [Q1], ["MC_RainCore_small.cfg", "MC_RainCore_pins.cfg"])],
         switches=[("Bug_DropAboveSnapshot", CORE, Q1, "ReadCorrect"),
@@ -488,6 +490,9 @@ PROPS = {
                    quick=48, thorough=1000),
               dict(driver="crash", args=["--nops", "30", "--threads", "2", "--every", "3"],
                    quick=4, thorough=60),
+              # an automatic trivial move in every run (then reopens: the manifest replays it)
+              dict(driver="hist", args=["--nops", "45", "--per-file", "6", "--profile", "trivial",
+                                        "--reopen-bias", "1"], quick=16, thorough=400),
               # seek-triggered compactions (from gets and from iterator read sampling) and the
               # trivial moves they lead to
               dict(driver="hist", args=["--nops", "80", "--per-file", "6", "--profile", "local",
